@@ -7,4 +7,5 @@ Definition keepZ : Z := Z.add 0 0.
 Definition keepNat : nat := length (@nil N).
 Definition keepRes : result N := Ok 0%N.
 Extraction "model_c10.ml" keepN keepZ keepNat keepRes model_obs judge tag_code
-  known_collateral_plutus known_stale_spend known_prop_nonscript.
+  known_collateral_plutus known_prop_nonscript
+  outpoint_ledger_ltb policy_ledger_ltb racct_ledger_ltb voter_ledger_ltb ledger_cert_script_locked.
